@@ -65,13 +65,15 @@ def pesCors (s : St) (bufs : List (List Nat)) : St × List FrameOut × Option Er
   bufs.foldl (fun (acc : St × List FrameOut × Option Err) b =>
     match acc with
     | (s, fr, some e) => (s, fr, some e)
-    | (s, fr, none) => let r := pesCorDrain (2 * b.length + 4) SrcCfg.current 0 s b 0 64; (r.st, fr ++ r.frames, r.err)) (s, [], none)
+    | (s, fr, none) => let r := pesCorDrain (2 * b.length + 4) SrcCfg.current 0 s b 0 64
+                       (r.st, fr ++ r.frames, if r.stalled then some (.assertFail "cor_livelock") else r.err)) (s, [], none)
 
 def tsCors (s : TsSt) (bufs : List (List Nat)) : TsSt × List FrameOut × Option Err :=
   bufs.foldl (fun (acc : TsSt × List FrameOut × Option Err) b =>
     match acc with
     | (s, fr, some e) => (s, fr, some e)
-    | (s, fr, none) => let r := tsCorDrain (2 * b.length + 4) demuxCorSkipsEmptyFrame 0 s b 0 64; (r.st, fr ++ r.frames, r.err)) (s, [], none)
+    | (s, fr, none) => let r := tsCorDrain (2 * b.length + 4) demuxCorSkipsEmptyFrame 0 s b 0 64
+                       (r.st, fr ++ r.frames, if r.stalled then some (.assertFail "cor_livelock") else r.err)) (s, [], none)
 
 def outLine (fr : List FrameOut) (e : Option Err) : String :=
   match e with
